@@ -8,7 +8,8 @@ THEOREMS = ['C14_cursor_visits_snapshot', 'C14_query_snapshot_at_first_next', 'C
             'C14_retract_at_most_once_from_init', 'C14_no_lost_update', 'C14_cursor_finite', 'C14_retract_goal_finite',
             'C14_compiled_no_lost_update', 'C14_compiled_retract_at_most_once', 'C14_retract_cursor_in_snapshot_order',
             'C14_compiled_run_is_cursor_history', 'C14_compiled_cursor_visits_snapshot', 'C14_compiled_history_no_lost_update',
-            'C14_compiled_cut_not_propagated', 'C14_compiled_cut_ends_own_clause_only']
+            'C14_compiled_cut_not_propagated', 'C14_compiled_cut_ends_own_clause_only',
+            'C14_retract_answer_is_stored', 'C14_after_clear_only_new_facts']
 RULE = ('(a) event histories with 1-4 simultaneously suspended cursors (queries and retracts, started through the API, '
         'compiled clauses, call/1 and goals held in variables) mostly on ONE predicate, with asserta/assertz/retractall/'
         'clear and answers of other retract cursors between any two next(); all predicates read back after every event; '
@@ -69,7 +70,10 @@ def gen_prog(rng):
         vals = rng.sample(pool, min(n, len(pool)))
     else:
         vals = [rng.choice(pool[:4]) for _ in range(n)]
-    kind = rng.choice(['snap', 'snap', 'drain', 'drainq', 'rotate', 'copy', 'copya', 'counter', 'susp', 'renew', 'snap_retract'])
+    kind = rng.choice(['snap', 'snap', 'drain', 'drainq', 'rotate', 'copy', 'copya', 'counter', 'susp', 'renew', 'snap_retract',
+                       'keyed', 'keyed'])
+    if kind == 'keyed':
+        return gen_keyed_prog(rng)
     c = {'kind': 'prog', 'template': kind, 'facts': {'p': [[_tv(v)] for v in vals]}, 'read': [['p', 1]]}
     def rop():
         return (rng.choice(['asserta', 'assertz', 'assertz', 'retractall']), rng.choice(pool[:5]))
@@ -161,6 +165,39 @@ def gen_prog(rng):
         c['loops'] = len(vals)
     return c
 
+def gen_keyed_prog(rng):
+    """round 4: a TABLE p(Key, Value) of 3 / about 16 / 20-40 rows (keys: atoms only, or atoms, integers and a variable
+    mixed) and a failure-driven loop of compiled code over the rows of ONE key, called with the key bound, that adds to /
+    rotates the rows of that same key while it enumerates them:
+        go(K) :- p(K, X), tick, assertz(p(K, new(X))), fail.            go(_).
+        go(K) :- retract(p(K, X)), tick, assertz(p(K, X)), fail.        go(_).
+    The logical update view prescribes the result (written out below); a step budget catches a loop that does not end."""
+    n = rng.choice([3, 8, 15, 16, 16, 17, 20, 24, 33, 40])
+    mixed = rng.random() < 0.4
+    rows = []
+    for i in range(n):
+        q = rng.random()
+        if mixed and q < 0.15:
+            k = ['v', 0]
+        elif mixed and q < 0.3:
+            k = ['i', 1]
+        else:
+            k = ['a', rng.choice(['a', 'a', 'b', 'c'])]
+        rows.append([k, ['i', i]])
+    key = ['a', 'a'] if rng.random() < 0.8 else rng.choice([['a', 'b'], ['i', 1] if mixed else ['a', 'c']])
+    hit = [r for r in rows if r[0] == key or r[0][0] == 'v']
+    c = {'kind': 'prog', 'template': 'keyed', 'facts': {'p': rows}, 'read': [['p', 2]], 'query': ['go', 1], 'qargs': [key],
+         'expect_answers': [[key]], 'loops': len(hit), 'rows': n}
+    if rng.random() < 0.6:
+        front = rng.random() < 0.25
+        c['source'] = 'go(K) :- p(K, X), tick, %s(p(K, new(X))), fail.\ngo(_).\n' % ('asserta' if front else 'assertz')
+        new = [[key, ['f', 'new', [r[1]]]] for r in hit]
+        c['expect_db'] = {'p': (list(reversed(new)) + rows) if front else (rows + new)}
+    else:
+        c['source'] = 'go(K) :- retract(p(K, X)), tick, assertz(p(K, X)), fail.\ngo(_).\n'
+        c['expect_db'] = {'p': [r for r in rows if r not in hit] + [[key, r[1]] for r in hit]}
+    return c
+
 class Budget(Exception):
     pass
 
@@ -185,7 +222,7 @@ def run_prog(case):
     try:
         for _ in range(case.get('repeat', 1)):
             T = terms.ImplTerms(yp)
-            vs = [T.var(i) for i in range(ar)]
+            vs = [T.build(t) for t in case['qargs']] if case.get('qargs') else [T.var(i) for i in range(ar)]
             g = yp.query(name, vs)
             for _ in g:
                 answers.append(D.canon_args([terms.term_obs(T.read(v)) for v in vs]))
@@ -371,7 +408,8 @@ def describe(case):
     if case.get('kind') == 'dbprog':
         return D.prog_describe(case)
     if case.get('kind') == 'prog':
-        return {'facts': {k: [terms.show_term(r[0]) for r in v] for k, v in case['facts'].items()}, 'program': case['source'],
+        return {'facts': {k: [','.join(terms.show_term(x) for x in r) for r in v] for k, v in case['facts'].items()}, 'program': case['source'],
+                'query_args': [terms.show_term(t) for t in case.get('qargs', [])],
                 'query': case['query'], 'repeat': case.get('repeat', 1)}
     return [D.show_event(e) for e in case['events']] + (['term objects: %r' % case['objects']] if case.get('objects') else [])
 
